@@ -997,6 +997,7 @@ func TestVerifC14RawNATSChild(t *testing.T) {
 					return
 				}
 			}
+			return
 		}
 		lrecs, err := vfReadLog(p.log, 0, true)
 		var recs []rec
